@@ -22,6 +22,7 @@ RULE = ("aggregates of 1-4 two-level sites (optionally one vibrational mode on a
         "distinct = (condition, limit, N, temperature class, rounded system); non-trivial iff the system has at least two states in the populated band "
         "with different energies.")
 RULE = RULE + " Round-6 workloads: every second molecule has two modes; molecular thermal states are also requested as the first thing inside eigenbasis_of(H)."
+RULE = RULE + " Round-7 workloads: strong-coupling thermal excited states are also requested with a caller-supplied relaxation Hamiltonian (its energies used as given)."
 ASSUMPTIONS = ["exciton bands are separated in energy (every ground-band level lies below every one-exciton level), as the band bookkeeping of the builders assumes",
                "requests are made outside units contexts (results that depend on the active units are not part of the statement)",
                "T=0 with exactly degenerate lowest states: see known finding (pinned by the repository's own test)",
